@@ -333,8 +333,11 @@ def build(tier):
     ] + dispatch_targets()
     import realvcs
     bounded, finfo = realvcs.build(tier)
+    import generic
+    gvcs, ginfo = realvcs.guarded(generic.build, 'generic-coordinate obligations')()
+    finfo = finfo + [f for f in ginfo if f['c_name'] not in {x['c_name'] for x in finfo}]
     return {
-        'targets': targets, 'vcs': smax_real_vcs(), 'bounded': bounded, 'functions': finfo,
+        'targets': targets, 'vcs': smax_real_vcs() + gvcs, 'bounded': bounded, 'functions': finfo,
         'decided': [
             'solver_t::done: status\' == converged <=> program.feasible(state) && eta < eps && no residual norm (|rdual|, |rprim|) is >= eps; '
             'otherwise unbounded if feasible, unfeasible if not; nothing but m_status is written (for norms that are not NaN this is literally '
@@ -379,6 +382,11 @@ def build(tier):
             '(Boyd & Vandenberghe (11.53) with t = miu m / eta), leaves eta / rcent alone without inequalities and rprim without equalities, and writes nothing '
             'else; solver_state_t::residual() == ||(rdual, rcent, rprim)||_2; solver_state_t::update stores in m_kkt exactly the largest of the five KKT tests '
             '(infinity norms) at the stored (x, u, v) and writes nothing else',
+            'GENERIC COORDINATE, every size (specs/C04/generic.py; arrays by their coefficient at one generic index, reductions as sums known up to their '
+            'summand, a matrix-vector product as a NAMED array): ::normalize returns max(min_norm, ||A||_F, ||b||_2) >= min_norm and divides the generic '
+            'coefficient of A and of b by it; program_t::update<vector_t> (QP and LP): eta == -sum_i u_i ((G x)_i - h_i) for m > 0 and untouched for m == 0, '
+            'rcent_i == -u_i ((G x)_i - h_i) - eta / (miu m), rdual_i == (Q x)_i + c_i + (G\'u)_i + (A\'v)_i with the terms of absent blocks dropped, rprim_i == '
+            '(A x)_i - b_i for p > 0, fx == mufx (1/2 sum x_i (Q x)_i + sum x_i c_i), operand sizes agree, and the products that occur are exactly Q x, G x, A x, G\'u, A\'v',
             'BOUNDED (same shapes), NORMALISATION (specs/C04/scaling.py): ::normalize returns d == max(min_norm, ||A||_F, ||b||_2) >= min_norm, divides BOTH A '
             'and b by d, and the scaled rows describe the same feasible / strictly feasible set row by row (=, <=, <), the scaled objective the same order of '
             'points; program_t(Q, c, A, b, G, h), walked initialiser by initialiser: m_mufx == M = max(1e-3, ||Q||_F, ||c||_2) of the CALLER\'s objective, each of '
@@ -390,7 +398,40 @@ def build(tier):
             'strictly feasible loop-head state assigns (dx, du, dv) that solve the Newton system of the residual map: Q dx + G\'du + A\'dv == -rdual, '
             '-diag(u) G dx - diag(Gx - h) du == -rcent, A dx == -rprim, with exactly one KKT solve and without touching the iterate',
             'BOUNDED (n <= 3, p <= 2), nano::program::reduce(A, b): without rows it returns false and touches nothing; otherwise [A | b] is decomposed as ONE '
-            'matrix, once, and A\' / b\' are the first n columns / the last column of the same reduced matrix (consistent split), returns true',
+            'matrix, once, and A\' / b\' are the first n columns / the last column of the same reduced matrix (consistent split), returns true; when [A | b] '
+            'has full row rank (A, b) are handed back unchanged: the equality rows the solver holds are then the caller\'s own rows',
+            'BOUNDED (rows <= 3, cols <= 4, every rank; quick tier: 2 x 3 with rank 2 and 1), ::reduce(matrix_t&) walked with a stub model of the Eigen::FullPivLU '
+            'object (specs/C04/reduce.py): what is decomposed is A.transpose() of the matrix handed in, exactly once; rank == rows leaves A untouched; '
+            'rank < rows replaces A by a matrix with exactly rank rows and the same columns (shapes DERIVED through leftCols / topRows / triangularView / '
+            'toDenseMatrix / transpose / block / the two products); NAMED obligation default_threshold: every rank decision (rank(), dimensionOfKernel(), '
+            'isInjective(), isSurjective(), isInvertible()) is taken on a decomposition object whose ghost flag `configured` is false, i.e. with Eigen\'s '
+            'DEFAULT scale-relative threshold (setThreshold(x) sets the flag, setThreshold(Eigen::Default) clears it) -- rationale: the property\'s clause '
+            '"the same holds when the program is restated with rescaled equality rows": a re-configured threshold drops genuine rows of a badly scaled '
+            '[A | b] and the relaxed program is reported converged (seeded C04-4); any other member call on the decomposition object ends the walk (exit 2) naming the call',
+            'BOUNDED (same shapes as the normalisation; quick tier: n = 2, p = 1, m = 2, QP), COMPOSITION (specs/C04/compose.py): program_t::program_t, '
+            'program_t::update and solver_t::done (with program_t::feasible walked in place) executed one after the other in ONE environment on the caller\'s '
+            'symbolic (Q, c, A, b, G, h): `state.m_status == converged` as a term over the CALLER\'s coefficients.  decision: converged <=> feasible\' && eta < '
+            'epsilon && ||rdual||_2 < epsilon && ||rprim||_2 < epsilon where feasible\' = (no equalities or ||A\'x - b\'||_2 < epsilon2) && (no inequalities or every '
+            '(G\'x - h\')_i < epsilon2) is evaluated on the HELD program (reduced, normalised: (A\', b\') = (A_r, b_r) / dA, (G\', h\') = (G, h) / dG) at state.m_x; '
+            'done() writes m_status only.  Then, from the EXTRACTED decision and un-scaling lemmas shown on the extracted terms: converged ==> (caller_equality_rows) '
+            '|(A_r x - b_r)_i| < epsilon dA and < epsilon2 dA for every equality row the reduction left (the caller\'s own rows when [A | b] has full row rank); '
+            '(equality_tolerance) <= 1e-6 (1 + ||b_r||_inf) under the side condition epsilon dA <= 1e-6 (1 + ||b_r||_inf); (caller_inequality_rows) (G x - h)_i < '
+            'epsilon2 dG for every inequality row the caller stated; (inequality_tolerance) <= 1e-6 (1 + ||h||_inf) under the side condition epsilon2 dG <= 1e-6 '
+            '(1 + ||h||_inf); (caller_dual_residual) every coefficient of Qx + c + G\'u~ + A_r\'v~ is below epsilon M in absolute value; (caller_gap) -u~\'(Gx - h) < '
+            'epsilon M; M = m_mufx = max(1e-3, ||Q||_F, ||c||_2), u~ = (M / dG) u, v~ = (M / dA) v, dA = max(1e-3, ||A_r||_F, ||b_r||_2), dG = max(1e-3, ||G||_F, ||h||_2)',
+            'BOUNDED (quick tier: n = 2, p = 1, m = 2, QP; thorough: all shapes with m > 0), INTERIOR-POINT INVARIANT (specs/C04/invariant.py): I = (G x - h < 0 and '
+            'u > 0 componentwise) is an inductive invariant of the main loop of solve_with_inequality over the reals.  base: the function\'s own prefix executed from '
+            'its entry establishes I on the path that enters the loop (x = x0 passed max(G x0 - h) < 0, u = -1 / (G x0 - h)); the other path returns before the loop.  '
+            'step: one whole iteration executed from an arbitrary loop-head state satisfying I: ::make_smax by the clauses proved for it with its precondition u > 0 '
+            'OBLIGED at the call, both backtracking loops by invariants of their own (0 < s <= s at loop entry, 0 <= iter <= max; checked on entry, preserved, '
+            'variant), stage 1 leaves through break only where (G (x + s dx) - h).maxCoeff() < 0 was evaluated, and on the path to the next loop head G x+ - h < 0 '
+            '(convexity of the strictly feasible set: the step finally taken is at most the step tested), u+ >= 0, and u+ > 0 when s0 < 1; together with `same '
+            'strictly feasible set` of the normalisation (held row < 0 <=> the caller\'s row < 0) every inequality row AS THE CALLER STATED IT holds strictly at '
+            'every iterate, hence at the returned x (over the reals)',
+            'BOUNDED (quick tier: n = 2, p = 1, QP; thorough: n <= 3, p <= 2), solve_without_inequality over the reals (specs/C04/swo.py), WITHOUT assuming that '
+            'the LDLT solution solves the system: the returned x / v are the two segments of the vector the isApprox test looks at; the vectors compared are '
+            'K (x, v) and (-c, b) with K = [[Q, A\'], [A, 0]] of the held program, precision epsilon2; converged <=> valid && aprox, failed <=> !valid, unfeasible '
+            'otherwise; K (x, v) - (-c, b) is the KKT residual (Qx + c + A\'v, Ax - b); converged ==> ||(Qx + c + A\'v, Ax - b)||_2^2 <= epsilon2^2 (||c||^2 + ||b||^2)',
         ],
         'not_decided': [
             'all numeric tolerances of the property (1e-6 (1+|b|), objective gap vs f*), correctness of infeasible / unbounded detection, '
@@ -401,16 +442,27 @@ def build(tier):
             'make_smax in IEEE arithmetic: result > 0 (the quotient -u_i / du_i can underflow to +0; proved over the reals only)',
             'the size precondition of make_smax at its call site in solve_with_inequality (u and du both have m coefficients) needs Eigen size '
             'reasoning; there make_smax is an arbitrary side-effect-free double',
-            'the residual definitions, the normalisation, the KKT system and the Newton step for GENERAL sizes and in floating point: they are checked over '
-            'the reals at n <= 3, p <= 2, m <= 2 only (bounded stand-ins, never counted as proved); inside the CBMC protocol targets program_t::solve / '
+            'the residual definitions, the normalisation, the KKT system and the Newton step for GENERAL sizes and in floating point: with the matrix products '
+            'EXPANDED they are checked over the reals at n <= 3, p <= 2, m <= 2 only (bounded stand-ins, never counted as proved); for every size only the '
+            'coefficient-wise / reduction structure around the (uninterpreted) products is proved (generic.py); inside the CBMC protocol targets program_t::solve / '
             'solver_state_t::update / residual stay havoc of what they assign',
-            '::reduce(Ab) itself (Eigen::FullPivLU: the reduced rows span the same solution set and are independent; note that they are linear COMBINATIONS of '
-            'the caller\'s rows, not a subset, so the returned v are multipliers of the transformed rows) and nano::stack: assumed contracts',
+            'Eigen::FullPivLU itself (in its default configuration the reduced rows span the same solution set and are independent; note that for a rank-deficient '
+            '[A | b] they are linear COMBINATIONS of the caller\'s rows, not a subset, so the returned v are multipliers of the transformed rows) and nano::stack: '
+            'assumed contracts; ::reduce is walked for shapes, frame and the threshold configuration only',
+            'the tolerances of the composition are stated with their arithmetic SIDE CONDITIONS instead of being derived from the property\'s magnitudes: epsilon dA <= '
+            '1e-6 (1 + ||b_r||_inf) holds for the default epsilon = 1e-10 whenever ||A_r||_F <= 1e4 (property: <= 1e2 sqrt(132)) -- but epsilon2 dG <= 1e-6 (1 + ||h||_inf) '
+            'does NOT follow from the magnitudes (epsilon2 = 1e-8, ||G||_F up to 1.8e3 with ||h||_inf down to 1e-2): what feasible() certifies about the inequalities '
+            'is weaker than the property\'s tolerance; on the solve_with_inequality path the inequality clause follows instead from the interior-point invariant '
+            '(G x - h < 0 exactly, over the reals); the caller-units clauses are about the residuals at the (x, u, v) program_t::update was handed (see the stale case above)',
+            'the interior-point invariant in IEEE arithmetic (the strict test is evaluated on x + s1 dx, the advance computes x + s2 dx: proved over the reals only), '
+            'and u > 0 at the boundary value s0 == 1 of the registered domain (0 < s0 <= 1): the backtracking may accept the full step to the boundary u_i = 0; '
+            'u >= 0 still holds, ::make_smax then returns 0 and the iteration stalls -- nothing about `converged` is affected, default s0 = 0.999',
             'the multipliers (m_u, m_v) handed back are those of the NORMALISED, reduced program: the library does not un-scale them (caller\'s multipliers: '
             '(mufx / dG) u, (mufx / dA) v for the reduced rows); the property\'s bound carries the factor M for this reason, nothing is refuted',
             'a malformed inequality block (A.rows() != b.size(), or an empty one) is not valid(): solve() then silently ignores the inequalities and runs '
             'solve_without_inequality (decided as the dispatch rule, outside the property\'s quantifier)',
-            'that the LDLT solution satisfies the KKT system to any accuracy, and that Gx - h < 0 holds at every loop head (numeric; the Newton obligations assume both)',
+            'that the LDLT solution satisfies the KKT system to any accuracy (numeric; the Newton obligations assume it; solve_without_inequality checks it with '
+            'isApprox, see swo_kkt)',
         ],
         'assumptions': [
             'Eigen / tensor operators are pure functions of their operands\' values (uninterpreted algebra over value identities); views (array(), '
@@ -429,8 +481,8 @@ def build(tier):
             '0 <= epsilon, epsilon0 <= 1e-3, 10 <= max_iters, max_lsearch_iters <= 1000',
             'IEEE facts, everything else about double + - * / uninterpreted: a * b for 0 <= b <= 1 lies between 0 and a (NaN stays NaN, +-inf times '
             'b > 0 stays), -a flips the sign exactly, a / b for a, b < 0 is >= 0 or NaN',
-            'make_smax_real VCs: IEEE double treated as a real; precondition u > 0 componentwise (the interior-point invariant, numeric, not '
-            'established here for the caller)',
+            'make_smax_real VCs: IEEE double treated as a real; precondition u > 0 componentwise (the interior-point invariant: established for the call site '
+            'over the reals, bounded shapes, by specs/C04/invariant.py given s0 < 1)',
             'logger calls have no effect on the modelled state (dropped, including the program.feasible(state) evaluated only for logging)',
             'solver_status enumerators are pairwise distinct (values copied from include/nano/solver/status.h)',
             'dispatch targets: solve_with_inequality / solve_without_inequality are stubs that record the program / x0 they are handed and return an arbitrary '
@@ -442,12 +494,27 @@ def build(tier):
             'matrix.lpNorm<2>() = Frobenius norm, vector.lpNorm<Infinity>() = max |a_k|, block(r, c, nr, nc), col(k), asDiagonal(), M.array() /= s, assignment to an '
             'owning tensor resizes it); std::sqrt / lpNorm<2> through sqrt(u)^2 == u, sqrt(u) >= 0 for u >= 0',
             'bounded real obligations, stated preconditions: 1 < miu (registered domain), min_norm > 0 for ::normalize (obliged at its three call sites), '
-            'Gx - h < 0 componentwise at the loop head of solve_with_inequality (interior-point invariant), m_lmat as the constructor leaves it when '
+            'Gx - h < 0 componentwise at the loop head of solve_with_inequality (the hypothesis of the Newton obligations; shown to be an inductive invariant over '
+            'the reals at the same bounded shapes by specs/C04/invariant.py), m_lmat as the constructor leaves it when '
             'program_t::solve is entered (proved for the constructor, preserved by solve)',
-            'bounded real obligations, assumed contracts of dependencies: reduce(A, b) replaces (A, b) by SOME (A_r, b_r) with 1 <= p_r <= p rows (untouched for '
-            'p = 0); ::reduce(Ab) replaces Ab by some matrix with fewer or as many rows and the same columns; nano::stack(rows, cols, A, b) is [A | b] (shape '
+            'bounded real obligations, callee contracts: reduce(A, b) leaves (A, b) untouched for p = 0 or full row rank and replaces them by SOME (A_r, b_r) with '
+            '1 <= p_r < p rows otherwise; ::reduce(Ab) likewise (both now exactly the clauses proved in scaling.reduce_vcs / reduce.reduce1_vcs; the RANK itself is a '
+            'scenario parameter); assumed contracts of dependencies: Eigen::FullPivLU in its DEFAULT configuration: rank() is the numerical rank with a threshold relative '
+            'to the largest pivot (invariant under a positive rescaling of a row), 0 <= rank <= min(rows, cols), permutationP() / permutationQ() / matrixLU() are matrices '
+            'of the decomposition\'s shapes, the reduced rows describe the same solution set; leftCols / topRows / triangularView<Mode> / toDenseMatrix / block / transpose '
+            'have their Eigen shapes; nano::stack(rows, cols, A, b) is [A | b] (shape '
             'conditions obliged); Eigen::LDLT: compute(M) then solve(r) returns s with M s == r; the loop-head state of solve_with_inequality, the parameter '
             'values and the contents of freshly allocated buffers are arbitrary',
+            'generic-coordinate obligations: double as real; the closed list of Eigen operations of specs/C06/eig.py; a matrix-vector product M * v is an '
+            'uninterpreted array of length rows(M) determined by (M, transposed?, v) (Eigen::Product checked in the deduced type, inner dimensions obliged); '
+            'finite sums: equal summands (up to commutativity of + and *) give equal sums, sums of non-negative summands are non-negative (specs/C06/vcgen.py)',
+            'composition (compose.py): state.m_x is the x program_t::update was handed (data flow: CBMC target solve_with_inequality_res, with its exhausted-line-search '
+            'case); nano::epsilon2<double>() is ONE arbitrary real constant (nothing is assumed about its value); the arithmetic side conditions epsilon dA <= 1e-6 '
+            '(1 + ||b_r||_inf) and epsilon2 dG <= 1e-6 (1 + ||h||_inf) of the two *_tolerance clauses are hypotheses of exactly those clauses',
+            'invariant.py / swo.py: std::isfinite, all_finite(), LDLT::rcond() / isPositive(), state.residual() are arbitrary values; program_t::update, '
+            'solver_state_t::update, done() are their proved frames (fresh values for what they write), program_t::solve the clauses of newton.solve_vcs; '
+            'Eigen isApprox(a, b, prec) <=> ||a - b||^2 <= prec^2 min(||a||^2, ||b||^2) (Eigen\'s documented definition for vectors); parameter values lie in '
+            'their registered domains',
         ],
         'trusted': [],
     }
@@ -459,7 +526,9 @@ def replay(rp):
       solver_done*               the verifier's (eta, |rdual|, |rprim|, epsilon) in a real state -> the REAL solver_t::done
       normalize / program_*      LP / QP with objective norm below the 1e-3 floor: reported fx against the objective at x
       solve_without_inequality   contradicting equalities, no inequalities: converged must not be reported
-      solve_with_inequality_res  small QPs: residual fields of a converged state recomputed at the returned (x, u, v)"""
+      solve_with_inequality_res  small QPs: residual fields of a converged state recomputed at the returned (x, u, v)
+      reduce_rows[..]            a QP with two independent equality rows, as stated and with the rows rescaled (x 100, / 100): converged => the STATED
+                                 rows hold within 1e-6 (1 + |b|_inf) and both statements return the same point"""
     import math
     import replaylib
     out = {'reproduced': False, 'runs': []}
@@ -469,6 +538,8 @@ def replay(rp):
         return out
     scen = {'normalize': ['scale'], 'program_ctor': ['scale'], 'program_update_vec': ['scale'], 'program_update_expr': ['scale'],
             'solve_without_inequality': ['noineq'], 'solve_with_inequality_res': ['stale', '200']}
+    if tgt.startswith('reduce_rows'):
+        scen[tgt] = ['rescale']
     if not tgt.startswith('solver_done') and tgt not in scen:
         out['note'] = 'no native driver for this target: the replay file carries the verifier output only'
         return out
